@@ -357,7 +357,11 @@ func c28TieParams(c *Ctx, stdoutSet bool, bits0 string, args []string) {
 				bits += "?"
 			}
 		}
-		got = fmt.Sprintf("ok %s %s %d", bits, ps, listings)
+		if stdoutSet {
+			got = fmt.Sprintf("ok %s %s %d", bits, ps, listings)
+		} else {
+			got = fmt.Sprintf("ok %s %s -", bits, ps) // the listings went to New's io.Discard
+		}
 	})
 	if p != "" {
 		got = "panic"
@@ -961,8 +965,9 @@ func c28TieCase(c *Ctx, dir string, i int) {
 				bits += "0"
 			}
 		}
-		// `-n` (noexec) has no effect on Params itself; allowed.  stdoutSet=false only rarely.
-		c28TieParams(c, !r.Chance(15), bits, args)
+		// `-n` (noexec) has no effect on Params itself; allowed.  stdoutSet=false: Params as an option of
+		// New with no StdIO option before it.
+		c28TieParams(c, !r.Chance(30), bits, args)
 		c.Case(fmt.Sprintf("params/%s/%q", bits, args), len(args) > 0, "tie:params")
 	case 6:
 		np := r.Intn(4)
